@@ -717,7 +717,11 @@ class World(object):
         for sim in self.sims.values():
             for port_triggers in sim.triggers.values():
                 for dest_sim, delay in port_triggers:
-                    dest_sim.triggering_ancestors[sim] = delay
+                    # There can be several triggering connections between
+                    # the same two simulators; the smallest delay counts.
+                    delay = update_min(dest_sim.triggering_ancestors.get(sim), delay)
+                    if delay is not None:
+                        dest_sim.triggering_ancestors[sim] = delay
                     dirty.add(dest_sim)
         while dirty:
             sim = dirty.pop()
